@@ -6,7 +6,7 @@ PROP = dict(
     bounded_budget=dict(quick=45, thorough=420),
     assumptions=[],
     trusted_base=['z3 5.1 / cvc5 1.0.3', 'pyvc symbolic executor and its encoding of Python (DESIGN.md section 2.3)', 'CPython 3.12, PLY 3.11 (A-PLY)'],
-    manifest=dict(text='Deductive core (tier P, 13 obligations): build_core_type, get_type_name, build_user_type, get_refered_attribute produce the element structure the property names. Bounded: XSD generated under every single edit of the test models and synthesised diagrams parsed back with ElementTree and compared with an independent walk (one element per contained class, one attribute per supported non-derived attribute typed by the referred base type, simple types with enumerators in modeled order).',
+    manifest=dict(text='Deductive core (tier P, 21 obligations): build_core_type, get_type_name, build_user_type, get_refered_attribute produce the element structure the property names; build_type hands a data type to the builder of its subtype (core before enumeration before user-defined, nothing for any other kind). Bounded: XSD generated under every single edit of the test models and synthesised diagrams parsed back with ElementTree and compared with an independent walk (one element per contained class, one attribute per supported non-derived attribute typed by the referred base type, simple types with enumerators in modeled order).',
                   note='xml.etree writes well-formed XML for the tree it is given (A-IO).',
                   technique='bounded stand-in (run-time contracts on the real functions driven by small-scope enumeration; labelled bounded, never counted as proved) decides the property sentence; contract-based deductive verification: sidecar contracts on the real functions, verification conditions generated from the current source of /repo on every run by pyvc (Python AST -> z3/cvc5), every obligation discharged function by function for the listed kernel functions, reported separately as tier P'),
 )
